@@ -20,8 +20,10 @@ import re
 from common import *  # noqa
 
 TIE = os.path.join(COQ, "Tie")
-ORDER = ["side_partial_cmp", "ub_partial_cmp", "ub_matches", "ub_try_into_range", "complement_std_range"]
-DEPS = {"ub_partial_cmp": ["side_partial_cmp"]}
+ORDER = ["side_partial_cmp", "ub_partial_cmp", "ub_matches", "ub_try_into_range", "complement_std_range",
+         "ub_new", "ub_from_range", "ub_unpack", "ub_complement"]
+DEPS = {"ub_partial_cmp": ["side_partial_cmp"], "ub_from_range": ["ub_new"], "ub_unpack": ["ub_new", "ub_try_into_range"],
+        "ub_complement": ["ub_try_into_range", "complement_std_range", "ub_from_range", "ub_new"]}
 # which properties' theorems rest on which translated function
 USES = {
     "ub_try_into_range": ["C06", "C09", "C12", "C13", "C15"],
@@ -29,6 +31,10 @@ USES = {
     "side_partial_cmp": ["C02", "C05", "C19"],
     "ub_partial_cmp": ["C05", "C19"],
     "complement_std_range": ["C15"],
+    "ub_new": ["C08", "C15"],
+    "ub_from_range": ["C15"],
+    "ub_unpack": ["C07", "C08", "C13"],
+    "ub_complement": ["C15"],
 }
 LEMMA = {n: "tie_" + n for n in ORDER}
 
@@ -97,7 +103,12 @@ def tie_check():
             _rm(gen)
             _rm(br)
             continue
-        deps = base + [okvo[d] for d in DEPS.get(n, []) if d in okvo]
+        if any(d not in okvo for d in DEPS.get(n, [])):
+            r.update(status="unsupported", detail="depends on a function that is not bridged: " + ", ".join(d for d in DEPS.get(n, []) if d not in okvo))
+            _rm(gen)
+            _rm(br)
+            continue
+        deps = base + [okvo[d] for d in DEPS.get(n, [])]
         gsrc = os.path.join(TIE, gen + ".v")
         if not _fresh(gen, [gsrc] + deps):
             rc, out = _coqc(gen)
@@ -115,9 +126,10 @@ def tie_check():
                 _rm(br)
                 r.update(status="failed", detail=out[-1200:])
                 # where do the translated code and the model differ?  (a grid of arguments, evaluated by the kernel)
-                rc2, out2 = _coqc("Search_" + n, timeout=600)
-                _rm("Search_" + n)
-                r["search"] = out2[-1500:] if rc2 == 0 else "search did not run: " + out2[-400:]
+                if os.path.exists(os.path.join(TIE, "Search_" + n + ".v")):
+                    rc2, out2 = _coqc("Search_" + n, timeout=600)
+                    _rm("Search_" + n)
+                    r["search"] = out2[-1500:] if rc2 == 0 else "search did not run: " + out2[-400:]
                 continue
         okvo[n] = gvo
         r["status"] = "bridged"
